@@ -153,6 +153,14 @@ def cellTriangles (isConvex : List Pt → Bool) (isEar : List Pt → Nat → Boo
       | .error e => .error e
       | .ok more => .ok (ts.map (fun t => (k, t)) ++ more)
 
+/-- `total_triangles = numpy.sum(polygon_length[nonzero] - 3)`: the number of rows the code
+pre-allocates (`polygon_length` counts the closing coordinate, so this is Σ (n - 2)).
+The code asserts `current_face == total_triangles` after filling the rows. -/
+def totalTriangles : List (Option (List Pt)) → Nat
+  | [] => 0
+  | none :: rest => totalTriangles rest
+  | some p :: rest => (p.length - 2) + totalTriangles rest
+
 /-- `shapely.get_coordinates(polygons)` (without the repeated closing coordinate, which
 de-duplication removes anyway). -/
 def allCoords : List (Option (List Pt)) → List Pt
